@@ -12,7 +12,9 @@
 //   * 32-bit, packed<24>, packed<31>: stratified grid S x S + seeded pairs;  float32/float64: stratified grid;
 //   * every model that is not swept completely: the seed-independent pairs whose product is an exact multiple of max
 //     (a = i*d, b = j*max/d for the divisors d of max) -- the rounding boundary of the scaled product.
-//   * channel_invert: every x for <=16-bit and packed<=16 models, stratified for the rest.
+//   * channel_invert: every x for <=16-bit and packed<=16 models, stratified for the rest; also on custom-range
+//     models built from scoped_channel_value (uint8 [16,235], uint16 [4096,61439], int16 [-1000,3000]: every value;
+//     float [1,2], double [-0.5,0.5]: stratified) with invert(min)==max, invert(max)==min.
 // The oracle is plain integer arithmetic (64-bit for <=16-bit models, __int128 above), long double / fma for floats.
 #include <boost/gil.hpp>
 #include <algorithm>
@@ -380,6 +382,77 @@ template <class F> static void float_model() {
     }
 }
 
+// ---- custom-range models built from scoped_channel_value: channel_invert only ------------------------
+// (multiply is not judged here: the property documents the shift to the unsigned range for signed integers only)
+// The min/max policies follow float_point_zero / float_point_one in channel.hpp.
+struct video8_min { static constexpr uint8_t apply() { return 16; } };
+struct video8_max { static constexpr uint8_t apply() { return 235; } };
+struct studio16_min { static constexpr uint16_t apply() { return 4096; } };
+struct studio16_max { static constexpr uint16_t apply() { return 61439; } };
+struct s16range_min { static constexpr int16_t apply() { return -1000; } };
+struct s16range_max { static constexpr int16_t apply() { return 3000; } };
+struct float_one { static constexpr float apply() { return 1.0f; } };
+struct float_two { static constexpr float apply() { return 2.0f; } };
+struct double_minus_half { static constexpr double apply() { return -0.5; } };
+struct double_plus_half { static constexpr double apply() { return 0.5; } };
+typedef gil::scoped_channel_value<uint8_t, video8_min, video8_max> video8_t;
+typedef gil::scoped_channel_value<uint16_t, studio16_min, studio16_max> studio16_t;
+typedef gil::scoped_channel_value<int16_t, s16range_min, s16range_max> s16range_t;
+typedef gil::scoped_channel_value<float, float_one, float_two> float12_t;
+typedef gil::scoped_channel_value<double, double_minus_half, double_plus_half> doublehalf_t;
+
+// integral base: every value of [min,max]
+template <class T, class Base> static void inv_custom_int(const char* nm) {
+    if (!vh::begin_case("invert", nm)) return;
+    const ll lo = (ll)(Base)gil::channel_traits<T>::min_value(), hi = (ll)(Base)gil::channel_traits<T>::max_value();
+    uint64_t cnt = 0;
+    for (ll x = lo; x <= hi; ++x) {
+        const ll y = (ll)(Base)gil::channel_invert(T((Base)x));
+        const ll expect = hi - x + lo;
+        if (y < lo || y > hi) vh::viol(key("inv-range", nm), vh::cat("invert(", x, ")=", y, " outside [", lo, ",", hi, "]"));
+        if (y != expect) vh::viol(key("inv-formula", nm), vh::cat("invert(", x, ")=", y, " expected max-x+min=", expect));
+        const ll z = (ll)(Base)gil::channel_invert(T((Base)y));
+        if (z != x) vh::viol(key("inv-involution", nm), vh::cat("invert(invert(", x, "))=", z, " (inner ", y, ")"));
+        if (x == lo && y != hi) vh::viol(key("inv-ends", nm), vh::cat("invert(min=", lo, ")=", y, " expected max=", hi));
+        if (x == hi && y != lo) vh::viol(key("inv-ends", nm), vh::cat("invert(max=", hi, ")=", y, " expected min=", lo));
+        ++cnt;
+    }
+    vh::sample(vh::cat("channel_invert on every value of the custom range ", nm, " [", lo, ",", hi, "]: == max-x+min, involution, range, ends"));
+    vh::evals(2 * cnt); vh::distinct(cnt);
+    vh::obs(vh::cat("inv.", nm));
+}
+// floating base: stratified values of [min,max]
+template <class T, class B> static void inv_custom_float(const char* nm) {
+    if (!vh::begin_case("invert", nm)) return;
+    vh::rng r = vh::case_rng(11);
+    const B lo = (B)gil::channel_traits<T>::min_value(), hi = (B)gil::channel_traits<T>::max_value();
+    std::vector<B> U = float_values<B>(r);               // stratified in [0,1]
+    const int extra = vh::thorough() ? (1 << 20) : (1 << 16);
+    for (int i = 0; i < extra; ++i) U.push_back((B)r.unit());
+    std::vector<B> S;
+    S.push_back(lo); S.push_back(hi); S.push_back(std::nextafter(lo, hi)); S.push_back(std::nextafter(hi, lo)); S.push_back((B)((lo + hi) / 2));
+    if (lo < 0 && hi > 0) { S.push_back(0); S.push_back(std::numeric_limits<B>::denorm_min()); S.push_back(-std::numeric_limits<B>::denorm_min()); }
+    for (B u : U) { B x = (B)(lo + (hi - lo) * u); if (x < lo) x = lo; if (x > hi) x = hi; S.push_back(x); }
+    std::sort(S.begin(), S.end()); S.erase(std::unique(S.begin(), S.end()), S.end());
+    const long double tol = 2.0L * (long double)std::numeric_limits<B>::epsilon() * std::max<long double>(1.0L, std::max(fabsl((long double)lo), fabsl((long double)hi)));
+    uint64_t cnt = 0;
+    for (B x : S) {
+        const B y = (B)gil::channel_invert(T(x));
+        volatile B t = hi - x;        // max - x + min, left to right, every step in the channel's base type
+        volatile B expect = t + lo;
+        if (!(y >= lo && y <= hi)) vh::viol(key("inv-range", nm), vh::cat("invert(", x, ")=", y, " outside [", lo, ",", hi, "]"));
+        if (y != (B)expect) vh::viol(key("inv-formula", nm), vh::cat("invert(", x, ")=", y, " expected (max-x)+min=", (B)expect));
+        const B z = (B)gil::channel_invert(T(y));
+        if (!(fabsl((long double)z - (long double)x) <= tol)) vh::viol(key("inv-involution", nm), vh::cat("invert(invert(", x, "))=", z));
+        if (x == lo && y != hi) vh::viol(key("inv-ends", nm), vh::cat("invert(min=", lo, ")=", y, " expected max=", hi));
+        if (x == hi && y != lo) vh::viol(key("inv-ends", nm), vh::cat("invert(max=", hi, ")=", y, " expected min=", lo));
+        ++cnt;
+    }
+    vh::sample(vh::cat("channel_invert on ", S.size(), " stratified values of the custom range ", nm, " [", lo, ",", hi, "]: == (max-x)+min in the base type, involution, range, ends"));
+    vh::evals(2 * cnt); vh::distinct(cnt);
+    vh::obs(vh::cat("inv.", nm));
+}
+
 // ---- channel references as arguments: same result as on the value --------------------------------
 template <class Ref, class MakeRef> static void ref_model(const char* refname, MakeRef make_ref) {
     typedef typename gil::channel_traits<Ref>::value_type V;
@@ -448,6 +521,12 @@ int main(int argc, char** argv) {
     inv_model<packed_channel_value<9>>(); inv_model<packed_channel_value<10>>(); inv_model<packed_channel_value<11>>(); inv_model<packed_channel_value<12>>();
     inv_model<packed_channel_value<13>>(); inv_model<packed_channel_value<14>>(); inv_model<packed_channel_value<15>>(); inv_model<packed_channel_value<16>>();
     inv_model<packed_channel_value<24>>(); inv_model<packed_channel_value<31>>();
+    // -- invert on custom-range models (scoped_channel_value)
+    inv_custom_int<video8_t, uint8_t>("video8");
+    inv_custom_int<studio16_t, uint16_t>("studio16");
+    inv_custom_int<s16range_t, int16_t>("s16range");
+    inv_custom_float<float12_t, float>("float12");
+    inv_custom_float<doublehalf_t, double>("doublehalf");
     // -- references as arguments
     ref_model<gil::packed_channel_reference<uint8_t, 0, 3, true>>("pref<u8,0,3>", static_maker<gil::packed_channel_reference<uint8_t, 0, 3, true>>());
     ref_model<gil::packed_channel_reference<uint8_t, 3, 5, true>>("pref<u8,3,5>", static_maker<gil::packed_channel_reference<uint8_t, 3, 5, true>>());
